@@ -25,8 +25,8 @@ theorem step_ldstSingle (w : BitVec 32) (s : A64.St) (hc : fld w 29 27 = 0b111) 
   unfold A64.step
   simp only [hnop, h1, h2, h3, h4, h5, h6, h7, h8, h9, h10, hc, h25, ↓reduceIte, Bool.not_false, and_self]
 
-theorem lift_ldstImm (w : BitVec 32) (addr : Nat) (hc : fld w 29 27 = 0b111) (h25 : bit w 25 = false) :
-    lift w addr = ldstImm w addr := by
+theorem lift_ldstSingleM (w : BitVec 32) (addr : Nat) (hc : fld w 29 27 = 0b111) (h25 : bit w 25 = false) :
+    lift w addr = ldstSingleM w addr := by
   have hnop := nop_not_class hc (by decide)
   have h1 : fld w 28 23 ≠ 0b100010 := by intro h; unfold A64.fld at h hc; omega
   have h3 : fld w 28 23 ≠ 0b100101 := by intro h; unfold A64.fld at h hc; omega
@@ -45,6 +45,16 @@ def immOff (w : BitVec 32) : Nat :=
 /-- is the word one of the four immediate forms (unsigned offset | unscaled | post-index | pre-index)? -/
 def ImmForm (w : BitVec 32) : Prop :=
   fld w 25 24 = 1 ∨ (fld w 25 24 = 0 ∧ bit w 21 = false ∧ fld w 11 10 ≠ 2)
+
+theorem lift_ldstImm (w : BitVec 32) (addr : Nat) (hc : fld w 29 27 = 0b111) (h25 : bit w 25 = false)
+    (himm : ImmForm w) : lift w addr = ldstImm w addr := by
+  rw [lift_ldstSingleM w addr hc h25]
+  unfold ldstSingleM
+  have : ¬ (fld w 25 24 = 0 ∧ bit w 21 = true ∧ fld w 11 10 = 2) := by
+    rcases himm with h | ⟨_, h21, h2⟩
+    · intro hh; omega
+    · intro hh; exact h2 hh.2.2
+  simp only [this, ↓reduceIte]
 
 theorem immOff_lt (w : BitVec 32) : immOff w < 2 ^ 64 := by
   unfold immOff
